@@ -78,7 +78,7 @@ package parser
 //@   ensures typeis(result, model.MetaData) && model.metaAttr(unbox(result, model.MetaData).Attr)
 
 //@ func (*PacketDslVisitorImpl).VisitRefMetaDataDeclaration
-//@   ensures typeis(result, model.MetaData) && model.metaAttr(unbox(result, model.MetaData).Attr)
+//@   ensures typeis(result, model.MetaData) && (unbox(result, model.MetaData).Attr == nil || model.metaAttr(unbox(result, model.MetaData).Attr))
 
 //@ func (*PacketDslVisitorImpl).VisitPacket
 //@   requires len(v.BinModel.Packets) == 0
@@ -87,11 +87,15 @@ package parser
 //@   loop 1 invariant model.metaWF(v.BinModel)
 //@   loop 4 invariant model.packetsNonNil(v.BinModel)
 
+//@ pred lengthOK(lf *model.Field) := lf != nil ==> (fieldOK(lf) && typeis(lf.Attr, *model.LengthFieldAttribute))
 //@ func (*PacketDslVisitorImpl).VisitPacketDefinition
 //@   ensures typeis(result, *model.Packet) && unbox(result, *model.Packet) != nil && model.fieldsNonNil(unbox(result, *model.Packet))
+//@   loop 0 invariant forall(i, 0, len(fields), fieldOK(fields[i])) && lengthOK(lengthField)
+//@   loop 1 invariant forall(i, 0, len(fields), fieldOK(fields[i])) && lengthOK(lengthField)
 
 //@ func (*PacketDslVisitorImpl).VisitFieldDefinitionWithAttribute
 //@   ensures isField(result)
+//@   loop 0 invariant fieldOK(f)
 
 //@ func (*PacketDslVisitorImpl).VisitFieldDefinition
 //@   requires isnode(ctx, fieldDefinition)
@@ -100,6 +104,8 @@ package parser
 
 //@ func (*PacketDslVisitorImpl).VisitInerObjectField
 //@   ensures isField(result)
+//@   loop 0 invariant forall(i, 0, len(subFields), fieldOK(subFields[i]))
+//@   loop 2 invariant forall(i, 0, len(subFields), fieldOK(subFields[i]))
 //@   decreases 2*depth(ctx)
 
 //@ func (*PacketDslVisitorImpl).VisitLengthFieldDeclaration
@@ -122,3 +128,6 @@ package parser
 
 //@ methods (*SyntaxErrorListener)
 //@   requires self != nil
+
+//@ func RenderToString
+//@   requires validtemplate(tmpl)
